@@ -1,5 +1,6 @@
-(* C10: construction paths, validate_types, __post_init__ order.  Lemmas are stated for the reference
-   member of the decorator family (Proofs/DataclassRef.v) and an arbitrary checker `check`. *)
+(* C10: construction paths, validate_types, __post_init__ (user hooks with heap effect and super() calls, stacked
+   new_post_init wrappers).  Lemmas are stated for the reference member of the decorator family
+   (Proofs/DataclassRef.v) and an arbitrary checker `check`. *)
 From Coq Require Import List ZArith Bool Arith Lia.
 From PV Require Import Base.Exn Model.Dataclass Spec.DataclassSpec Proofs.DataclassBase Proofs.DataclassRef.
 Import ListNotations.
@@ -25,6 +26,10 @@ Proof.
   intros x l Hne H. destruct l as [|y l]; [congruence|]. inversion H; subst. clear Hne H.
   destruct x as [[]|e]; simpl; [|reflexivity]. apply first_raise_ok. eapply Forall_impl; [|eassumption]. auto.
 Qed.
+Lemma first_raise_in : forall l e, first_raise l = Raise e -> In (Raise e) l.
+Proof.
+  induction l as [|[[]|e'] l IH]; simpl; intros e H; [discriminate|right; now apply IH|left; congruence].
+Qed.
 
 Definition of_reject (o : option exn) : outcome unit := match o with None => Ok tt | Some e => Raise e end.
 
@@ -34,6 +39,20 @@ Proof.
   destruct (getattr h r (f_name f)) as [v|]; [|split; discriminate].
   destruct (c h (f_ann f) v) as [[]|e]; simpl; [apply IH|split; discriminate].
 Qed.
+
+(* what one run of __post_init__ amounts to: events appended to the journal, the heap it leaves, its outcome *)
+Definition pres := (list event * heap * outcome unit)%type.
+Definition to_state (st : state) (x : pres) : state * outcome unit :=
+  match x with (ev, h, o) => (mkSt h (s_journal st ++ ev), o) end.
+
+Lemma to_state_nil : forall st o, to_state st ([], s_heap st, o) = (st, o).
+Proof. intros [h j] o. simpl. now rewrite app_nil_r. Qed.
+
+(* the new_post_init wrappers stacked on top of the attribute, and what they wrap *)
+Fixpoint core (f : pifun) : pifun := match f with PFNew old => core old | x => x end.
+Fixpoint wraps (f : pifun) : nat := match f with PFNew old => S (wraps old) | _ => O end.
+Fixpoint no_super (body : list pistmt) : bool :=
+  match body with [] => true | PSet _ _ :: rest => no_super rest | PSuper :: _ => false end.
 
 Section C10.
   Variable defs : list (dparam * bool).
@@ -84,47 +103,277 @@ Section C10.
     destruct (check vis h (f_ann f) v) as [[]|e]; simpl; [assumption|reflexivity].
   Qed.
 
-  (* ---- __post_init__: journal and outcome, given what one run of validate_types appends / returns *)
-  Fixpoint pi_spec (f : pifun) (v : via) (outer : nat) (ev : bool -> list event) (res : bool -> outcome unit)
-    : list event * outcome unit :=
-    match f with
-    | PFNone => ([], Raise AttributeErrorC)
-    | PFNoop => ([], Ok tt)
-    | PFUser c b => ([EPi c], match b with PIRet => Ok tt | PIRaise e => Raise e end)
-    | PFNew old =>
-      match snd (pi_spec old v (S outer) ev res) with
-      | Ok _ => (fst (pi_spec old v (S outer) ev res) ++ ev (caller_visible v outer), res (caller_visible v outer))
-      | Raise e => (fst (pi_spec old v (S outer) ev res), Raise e)
-      end
-    end.
-
-  Lemma run_pi_eq : forall (val : bool -> M unit) evf resf,
-    (forall b st, val b st = (st_app st (evf b (s_heap st)), resf b (s_heap st))) ->
-    forall f v outer st, run_pi P f v outer val st =
-      (st_app st (fst (pi_spec f v outer (fun b => evf b (s_heap st)) (fun b => resf b (s_heap st)))),
-       snd (pi_spec f v outer (fun b => evf b (s_heap st)) (fun b => resf b (s_heap st)))).
+  Lemma validate_appender : forall vis C D r, nearest_deco C = Some D ->
+    forall st, validate_types P check vis C r st =
+      (st_app st (fst (checks_prefix vis (s_heap st) r (dc_fields C))), snd (checks_prefix vis (s_heap st) r (dc_fields C))).
   Proof.
-    intros val evf resf Hv. induction f as [| |c b|old IH]; intros v outer st.
-    - simpl. unfold raise. now rewrite st_app_nil.
-    - simpl. unfold ret. now rewrite st_app_nil.
-    - simpl. unfold bindM, emit. destruct b; reflexivity.
-    - unfold P in *. rewrite ref_run_new. unfold bindM at 1. rewrite IH.
-      set (ev := fun b => evf b (s_heap st)). set (res := fun b => resf b (s_heap st)).
-      destruct (snd (pi_spec old v (S outer) ev res)) as [[]|e] eqn:E.
-      + unfold bindM at 1. rewrite Hv. simpl s_heap.
-        simpl pi_spec. rewrite E. simpl. rewrite st_app_app. fold (res (caller_visible v outer)).
-        destruct (res (caller_visible v outer)) as [[]|e']; reflexivity.
-      + simpl pi_spec. rewrite E. reflexivity.
+    intros vis C D r HD st. unfold P. rewrite ref_validate, HD, (nearest_deco_fields _ _ HD). apply check_loop_eq.
   Qed.
 
+  (* ---- object.__setattr__, pure *)
+  Definition set_cell (h : heap) (r : nat) (n : name) (v : value) : heap :=
+    heap_upd h r (fun o => mkObj (o_kind o) (o_items o) (dict_set (o_attrs o) n v)).
+  Definition setf (C : chain) (r : nat) (n : name) (v : value) (h : heap) : outcome heap :=
+    if has_dict P C || mem n (field_names C) then Ok (set_cell h r n v) else Raise AttributeErrorC.
+
+  Lemma obj_setattr_eq : forall C r n v st,
+    obj_setattr P C r n v st =
+    match setf C r n v (s_heap st) with Ok h' => (mkSt h' (s_journal st), Ok tt) | Raise e => (st, Raise e) end.
+  Proof. intros. unfold obj_setattr, setf. destruct (has_dict P C || mem n (field_names C)); reflexivity. Qed.
+
+  (* ---- __post_init__ as a pure function of the heap: the mirror of Model.run_pi with the validation loop replaced
+     by checks_prefix (whose outcome is Spec.first_reject) *)
+  Section Mirror.
+    Variable C : chain.
+    Variable r : nat.                        (* the object under construction *)
+
+    Fixpoint body_spec (sup : heap -> pres) (slots : bool) (body : list pistmt) (h : heap) : pres :=
+      match body with
+      | [] => ([], h, Ok tt)
+      | PSet n v :: rest =>
+        match setf C r n v h with Ok h' => body_spec sup slots rest h' | Raise e => ([], h, Raise e) end
+      | PSuper :: rest =>
+        if slots then ([], h, Raise TypeErrorC) else
+        match sup h with
+        | (e1, h1, Ok _) => match body_spec sup slots rest h1 with (e2, h2, o2) => (e1 ++ e2, h2, o2) end
+        | (e1, h1, Raise e) => (e1, h1, Raise e)
+        end
+      end.
+    Fixpoint pi_spec (f : pifun) (v : via) (outer : nat) (h : heap) : pres :=
+      match f with
+      | PFNone => ([], h, Raise AttributeErrorC)
+      | PFNoop => ([], h, Ok tt)
+      | PFUser c b slots sup =>
+        match body_spec (pi_spec sup v (S outer)) slots (pb_body b) h with
+        | (e1, h1, Ok _) => (EPi c :: e1, h1, match pb_raise b with Some e => Raise e | None => Ok tt end)
+        | (e1, h1, Raise e) => (EPi c :: e1, h1, Raise e)
+        end
+      | PFNew old =>
+        match pi_spec old v (S outer) h with
+        | (e1, h1, Ok _) =>
+          (e1 ++ fst (checks_prefix (caller_visible v outer) h1 r (dc_fields C)), h1,
+           snd (checks_prefix (caller_visible v outer) h1 r (dc_fields C)))
+        | (e1, h1, Raise e) => (e1, h1, Raise e)
+        end
+      end.
+
+    Lemma to_state_step : forall st e1 h1 (x : pres),
+      to_state (mkSt h1 (s_journal st ++ e1)) x =
+      match x with (e2, h2, o2) => to_state st (e1 ++ e2, h2, o2) end.
+    Proof. intros st e1 h1 [[e2 h2] o2]. simpl. now rewrite app_assoc. Qed.
+
+    Lemma run_body_eq : forall (supM : M unit) (supS : heap -> pres) slots,
+      (forall st, supM st = to_state st (supS (s_heap st))) ->
+      forall body st, run_body (obj_setattr P C r) supM slots body st = to_state st (body_spec supS slots body (s_heap st)).
+    Proof.
+      intros supM supS slots Hs. induction body as [|s body IH]; intro st.
+      - cbn [run_body body_spec]. unfold ret. now rewrite to_state_nil.
+      - destruct s as [n v|]; cbn [run_body body_spec].
+        + unfold bindM at 1. rewrite obj_setattr_eq. destruct (setf C r n v (s_heap st)) as [h'|e].
+          * rewrite IH. reflexivity.
+          * now rewrite to_state_nil.
+        + destruct slots.
+          * unfold bindM, raise. now rewrite to_state_nil.
+          * unfold bindM at 1. rewrite Hs. destruct (supS (s_heap st)) as [[e1 h1] [[]|e]]; cbn [to_state].
+            -- rewrite IH. cbn [s_heap]. rewrite to_state_step.
+               destruct (body_spec supS false body h1) as [[e2 h2] o2]. reflexivity.
+            -- reflexivity.
+    Qed.
+
+    Lemma run_pi_eq : forall D, nearest_deco C = Some D ->
+      forall f v outer st,
+      run_pi P f v outer (fun vis => validate_types P check vis C r) (obj_setattr P C r) st =
+      to_state st (pi_spec f v outer (s_heap st)).
+    Proof.
+      intros D HD. induction f as [| |c b slots sup IH|old IH]; intros v outer st.
+      - cbn [run_pi pi_spec]. unfold raise. now rewrite to_state_nil.
+      - cbn [run_pi pi_spec]. unfold ret. now rewrite to_state_nil.
+      - cbn [run_pi pi_spec]. unfold bindM at 1. unfold emit.
+        unfold bindM at 1.
+        rewrite (run_body_eq _ (pi_spec sup v (S outer)) slots (fun st0 => IH v (S outer) st0)).
+        cbn [s_heap s_journal].
+        destruct (body_spec (pi_spec sup v (S outer)) slots (pb_body b) (s_heap st)) as [[e1 h1] [[]|e]]; simpl.
+        + unfold end_of. destruct (pb_raise b); unfold raise, ret; now rewrite <- app_assoc.
+        + now rewrite <- app_assoc.
+      - unfold P in *. rewrite ref_run_new. unfold bindM at 1. rewrite IH.
+        cbn [pi_spec]. destruct (pi_spec old v (S outer) (s_heap st)) as [[e1 h1] [[]|e]]; simpl.
+        + unfold bindM at 1. rewrite (validate_appender _ C D r HD). cbn [s_heap s_journal st_app].
+          destruct (snd (checks_prefix (caller_visible v outer) h1 r (dc_fields C))) as [[]|e']; simpl;
+            now rewrite app_assoc.
+        + reflexivity.
+    Qed.
+
+    (* ---- closed forms *)
+    (* the successive validations of the stacked wrappers, all on the heap the wrapped function left *)
+    Fixpoint val_seq (bs : list bool) (h : heap) : list event * outcome unit :=
+      match bs with
+      | [] => ([], Ok tt)
+      | b :: rest =>
+        match snd (checks_prefix b h r (dc_fields C)) with
+        | Ok _ => (fst (checks_prefix b h r (dc_fields C)) ++ fst (val_seq rest h), snd (val_seq rest h))
+        | Raise e => (fst (checks_prefix b h r (dc_fields C)), Raise e)
+        end
+      end.
+    Lemma val_seq_app : forall a b h,
+      val_seq (a ++ b) h =
+      match snd (val_seq a h) with
+      | Ok _ => (fst (val_seq a h) ++ fst (val_seq b h), snd (val_seq b h))
+      | Raise e => (fst (val_seq a h), Raise e)
+      end.
+    Proof.
+      induction a as [|x a IH]; intros b h; simpl.
+      - destruct (val_seq b h). reflexivity.
+      - destruct (snd (checks_prefix x h r (dc_fields C))) as [[]|e]; simpl; [|reflexivity].
+        rewrite IH. destruct (snd (val_seq a h)) as [[]|e]; simpl; [now rewrite app_assoc|reflexivity].
+    Qed.
+    Lemma val_seq_outcome : forall bs h,
+      snd (val_seq bs h) = first_raise (map (fun b => of_reject (first_reject (check b) h (dc_fields C) r)) bs).
+    Proof.
+      induction bs as [|b bs IH]; intro h; simpl; [reflexivity|].
+      rewrite <- checks_prefix_outcome.
+      destruct (snd (checks_prefix b h r (dc_fields C))) as [[]|e]; simpl; [apply IH|reflexivity].
+    Qed.
+    Lemma val_seq_events : forall bs h, forallb is_check (fst (val_seq bs h)) = true.
+    Proof.
+      induction bs as [|b bs IH]; intro h; simpl; [reflexivity|].
+      destruct (snd (checks_prefix b h r (dc_fields C))) as [[]|e]; simpl.
+      - now rewrite forallb_app, checks_prefix_events, IH.
+      - apply checks_prefix_events.
+    Qed.
+
+    (* the visibility flags of the successive validate_types calls of the stacked wrappers, in execution order
+       (the innermost new_post_init validates first) *)
+    Fixpoint vis_list (f : pifun) (v : via) (outer : nat) : list bool :=
+      match f with PFNew old => vis_list old v (S outer) ++ [caller_visible v outer] | _ => [] end.
+
+    (* everything below the stacked wrappers runs first; then the wrappers validate, one after the other, the heap it left *)
+    Lemma pi_spec_wrapped : forall f v outer h,
+      pi_spec f v outer h =
+      match pi_spec (core f) v (wraps f + outer) h with
+      | (e0, h2, Ok _) => (e0 ++ fst (val_seq (vis_list f v outer) h2), h2, snd (val_seq (vis_list f v outer) h2))
+      | (e0, h2, Raise e) => (e0, h2, Raise e)
+      end.
+    Proof.
+      induction f as [| |c b slots sup _|old IH]; intros v outer h.
+      - reflexivity.
+      - reflexivity.
+      - cbn [core wraps vis_list val_seq fst snd]. cbn [Nat.add].
+        destruct (pi_spec (PFUser c b slots sup) v outer h) as [[e0 h2] [[]|e]]; [now rewrite app_nil_r|reflexivity].
+      - cbn [pi_spec core wraps vis_list]. rewrite IH.
+        replace (S (wraps old) + outer) with (wraps old + S outer) by lia.
+        destruct (pi_spec (core old) v (wraps old + S outer) h) as [[e0 h2] [[]|e]]; [|reflexivity].
+        rewrite val_seq_app.
+        destruct (snd (val_seq (vis_list old v (S outer)) h2)) as [[]|e]; [|reflexivity].
+        cbn [val_seq fst snd].
+        destruct (snd (checks_prefix (caller_visible v outer) h2 r (dc_fields C))) as [[]|e] eqn:E;
+          cbn [fst snd]; rewrite ?app_nil_r, ?app_assoc; reflexivity.
+    Qed.
+
+    (* a user body without super(): journal entry, the assignments in order, return / raise; no validation inside *)
+    Fixpoint apply_sets (body : list pistmt) (h : heap) : heap * outcome unit :=
+      match body with
+      | [] => (h, Ok tt)
+      | PSet n v :: rest => match setf C r n v h with Ok h' => apply_sets rest h' | Raise e => (h, Raise e) end
+      | PSuper :: _ => (h, Raise TypeErrorC)
+      end.
+    Lemma body_spec_plain : forall sup slots body h, no_super body = true ->
+      body_spec sup slots body h = ([], fst (apply_sets body h), snd (apply_sets body h)).
+    Proof.
+      induction body as [|[n v|] body IH]; intros h H; simpl in *; [reflexivity| |discriminate].
+      destruct (setf C r n v h) as [h'|e]; [now apply IH|reflexivity].
+    Qed.
+    Definition plain_hook (b : pib) (h : heap) : heap * outcome unit :=
+      match apply_sets (pb_body b) h with
+      | (h2, Ok _) => (h2, match pb_raise b with Some e => Raise e | None => Ok tt end)
+      | (h2, Raise e) => (h2, Raise e)
+      end.
+    Lemma pi_spec_plain_user : forall c b slots sup v outer h, no_super (pb_body b) = true ->
+      pi_spec (PFUser c b slots sup) v outer h = ([EPi c], fst (plain_hook b h), snd (plain_hook b h)).
+    Proof.
+      intros. cbn [pi_spec]. rewrite body_spec_plain by assumption. unfold plain_hook.
+      destruct (apply_sets (pb_body b) h) as [h2 [[]|e]]; reflexivity.
+    Qed.
+
+    (* the first event of a run whose first function is written by the user is that user's journal entry *)
+    Lemma pi_spec_user_first : forall c b slots sup v outer h,
+      exists e1, fst (fst (pi_spec (PFUser c b slots sup) v outer h)) = EPi c :: e1.
+    Proof.
+      intros. cbn [pi_spec].
+      destruct (body_spec (pi_spec sup v (S outer)) slots (pb_body b) h) as [[e1 h1] [[]|e]]; exists e1; reflexivity.
+    Qed.
+
+    (* soundness: when the attribute ends with a validation and returns, every field conforms in the heap it leaves *)
+    Fixpoint final_vis (f : pifun) (v : via) (outer : nat) : bool :=
+      match f with
+      | PFNew _ => caller_visible v outer
+      | PFUser _ _ _ sup => final_vis sup v (S outer)
+      | _ => true
+      end.
+    Lemma body_last_super : forall sup body h ev h2,
+      last_is_super body = true -> body_spec sup false body h = (ev, h2, Ok tt) ->
+      exists h' ev', sup h' = (ev', h2, Ok tt).
+    Proof.
+      induction body as [|s body IH]; intros h ev h2 Hl H; [discriminate|].
+      destruct body as [|s' body'].
+      - destruct s as [n v|]; [simpl in Hl; discriminate|]. simpl in H.
+        destruct (sup h) as [[e1 h1] [[]|e]] eqn:E; [|discriminate]. inversion H. subst. now exists h, e1.
+      - assert (Hl' : last_is_super (s' :: body') = true) by exact Hl. clear Hl.
+        remember (s' :: body') as tl eqn:Etl. clear Etl.
+        destruct s as [n v|].
+        + cbn [body_spec] in H. destruct (setf C r n v h) as [h'|e]; [|discriminate]. eapply IH; eassumption.
+        + cbn [body_spec] in H. destruct (sup h) as [[e1 h1] [[]|e]]; [|discriminate].
+          destruct (body_spec sup false tl h1) as [[e2 h2'] o2] eqn:E2. inversion H. subst.
+          eapply IH; eassumption.
+    Qed.
+    Lemma ends_checked_sound : forall f v outer h ev h2,
+      ends_checked f = true -> pi_spec f v outer h = (ev, h2, Ok tt) ->
+      all_conform (check (final_vis f v outer)) h2 (dc_fields C) r = true.
+    Proof.
+      induction f as [| |c b slots sup IH|old _]; intros v outer h ev h2 He H; try discriminate.
+      - cbn [ends_checked] in He. apply andb_true_iff in He as [He He4]. apply andb_true_iff in He as [He He3].
+        apply andb_true_iff in He as [He1 He2]. apply negb_true_iff in He1. subst slots.
+        cbn [pi_spec] in H.
+        destruct (body_spec (pi_spec sup v (S outer)) false (pb_body b) h) as [[e1 h1] [[]|e]] eqn:E; [|discriminate].
+        destruct (pb_raise b); [discriminate|]. inversion H. subst.
+        destruct (body_last_super _ _ _ _ _ He3 E) as [h' [ev' Hs]].
+        cbn [final_vis]. eapply IH; eassumption.
+      - cbn [pi_spec] in H. destruct (pi_spec old v (S outer) h) as [[e1 h1] [[]|e]]; [|discriminate].
+        inversion H. subst. cbn [final_vis]. rewrite checks_prefix_outcome in H3.
+        apply first_reject_none. destruct (first_reject _ _ _ _); [discriminate|reflexivity].
+    Qed.
+
+    (* object.__setattr__ only adds / overwrites: an attribute of the object that had a value keeps having one *)
+    Lemma heap_upd_nth : forall h q g, nth_error (heap_upd h q g) q = option_map g (nth_error h q).
+    Proof. induction h as [|o h IH]; intros [|q] g; simpl; try reflexivity. apply IH. Qed.
+    Lemma set_cell_keeps : forall h n v m, getattr h r m <> None -> getattr (set_cell h r n v) r m <> None.
+    Proof.
+      intros h n v m H. unfold getattr, set_cell in *. rewrite heap_upd_nth.
+      destruct (nth_error h r) as [o|]; [|exact H]. simpl. rewrite lookup_dict_set.
+      destruct (Nat.eqb n m); [discriminate|exact H].
+    Qed.
+    Definition keeps (x : heap -> pres) : Prop :=
+      forall h m, getattr h r m <> None -> getattr (snd (fst (x h))) r m <> None.
+    Lemma body_spec_keeps : forall sup slots, keeps sup -> forall body, keeps (body_spec sup slots body).
+    Proof.
+      intros sup slots Hs. induction body as [|[n v|] body IH]; intros h m H; cbn [body_spec].
+      - exact H.
+      - unfold setf. destruct (has_dict P C || mem n (field_names C)); [|exact H]. apply IH. now apply set_cell_keeps.
+      - destruct slots; [exact H|]. pose proof (Hs h m H) as H1. destruct (sup h) as [[e1 h1] [[]|e]]; [|exact H1].
+        pose proof (IH h1 m H1) as H2. destruct (body_spec sup false body h1) as [[e2 h2] o2]. exact H2.
+    Qed.
+    Lemma pi_spec_keeps : forall f v outer, keeps (pi_spec f v outer).
+    Proof.
+      induction f as [| |c b slots sup IH|old IH]; intros v outer h m H; cbn [pi_spec]; try exact H.
+      - pose proof (body_spec_keeps (pi_spec sup v (S outer)) slots (IH v (S outer)) (pb_body b) h m H) as H1.
+        destruct (body_spec (pi_spec sup v (S outer)) slots (pb_body b) h) as [[e1 h1] [[]|e]]; exact H1.
+      - pose proof (IH v (S outer) h m H) as H1. destruct (pi_spec old v (S outer) h) as [[e1 h1] [[]|e]]; exact H1.
+    Qed.
+  End Mirror.
+
   Definition user_raises (f : pifun) : option exn :=
-    match user_of f with Some (_, PIRaise e) => Some e | _ => None end.
+    match user_of f with Some (_, b) => pb_raise b | None => None end.
   (* no PFNone below a PFNew: holds for everything resolve_pi produces *)
   Fixpoint pi_wf (f : pifun) : bool := match f with PFNew PFNone => false | PFNew old => pi_wf old | _ => true end.
-  (* the visibility flags of the successive validate_types calls, in execution order (the innermost
-     new_post_init validates first) *)
-  Fixpoint vis_list (f : pifun) (v : via) (outer : nat) : list bool :=
-    match f with PFNew old => vis_list old v (S outer) ++ [caller_visible v outer] | _ => [] end.
 
   Lemma resolve_pi_wf : forall C, pi_wf (resolve_pi P C) = true.
   Proof.
@@ -134,47 +383,24 @@ Section C10.
     - destruct (l_pi L); [reflexivity|assumption].
   Qed.
 
-  Lemma pi_wf_inv : forall old, pi_wf (PFNew old) = true -> pi_wf old = true /\ old <> PFNone.
-  Proof. intros [| | |o] H; simpl in *; try discriminate; (split; [assumption || reflexivity|discriminate]). Qed.
-
-  Lemma pi_spec_outcome : forall f v outer ev res, pi_wf f = true -> f <> PFNone ->
-    snd (pi_spec f v outer ev res) =
-    match user_raises f with Some e => Raise e | None => first_raise (map res (vis_list f v outer)) end.
-  Proof.
-    induction f as [| |c b|old IH]; intros v outer ev res Hwf Hn.
-    - congruence.
-    - reflexivity.
-    - unfold user_raises. simpl. destruct b; reflexivity.
-    - destruct (pi_wf_inv _ Hwf) as [Hwf' Hn'].
-      simpl pi_spec. rewrite (IH v (S outer) ev res Hwf' Hn').
-      change (user_raises (PFNew old)) with (user_raises old).
-      destruct (user_raises old) as [e|]; [reflexivity|].
-      simpl vis_list. rewrite map_app, first_raise_app. simpl map. rewrite first_raise_one.
-      destruct (first_raise (map res (vis_list old v (S outer)))) as [[]|e]; reflexivity.
-  Qed.
-
   Lemma vis_list_nonempty : forall f v outer, is_new f = true -> vis_list f v outer <> [].
   Proof. intros [| | |old] v outer H; try discriminate. simpl. intro E. now apply app_eq_nil in E as [_ E]. Qed.
 
-  (* journal: the user's entry (if any) first, then check events only *)
-  Lemma pi_spec_events : forall f v outer ev res, (forall b, forallb is_check (ev b) = true) -> pi_wf f = true ->
-    exists checks, forallb is_check checks = true /\
-      fst (pi_spec f v outer ev res) = match user_of f with Some (c, _) => EPi c :: checks | None => checks end /\
-      (forall e, user_raises f = Some e -> checks = []).
+  Lemma user_of_core : forall f, user_of f = user_of (core f).
+  Proof. induction f; simpl; try reflexivity; assumption. Qed.
+  Lemma core_not_new : forall f, is_new (core f) = false.
+  Proof. induction f; simpl; try reflexivity; assumption. Qed.
+  Lemma core_user : forall f c b, user_of f = Some (c, b) -> exists slots sup, core f = PFUser c b slots sup.
   Proof.
-    intros f v outer ev res Hev. revert outer. induction f as [| |c b|old IH]; intros outer Hwf.
-    - exists []. repeat split; try reflexivity.
-    - exists []. repeat split; try reflexivity.
-    - exists []. repeat split; reflexivity.
-    - destruct (pi_wf_inv _ Hwf) as [Hwf' Hn'].
-      destruct (IH (S outer) Hwf') as [checks [H1 [H2 H3]]]. simpl pi_spec.
-      change (user_raises (PFNew old)) with (user_raises old). change (user_of (PFNew old)) with (user_of old).
-      pose proof (pi_spec_outcome old v (S outer) ev res Hwf' Hn') as Ho.
-      destruct (snd (pi_spec old v (S outer) ev res)) as [[]|e] eqn:E.
-      + exists (checks ++ ev (caller_visible v outer)). split; [now rewrite forallb_app, H1, Hev|]. split.
-        * simpl. rewrite H2. destruct (user_of old) as [[c b]|]; reflexivity.
-        * intros e He. rewrite He in Ho. discriminate.
-      + exists checks. split; [assumption|]. split; [|assumption]. simpl. exact H2.
+    induction f as [| |c' b' slots sup _|old IH]; intros c b H; simpl in *; try discriminate.
+    - inversion H. subst. now exists slots, sup.
+    - now apply IH.
+  Qed.
+  Lemma core_no_user : forall f, pi_wf f = true -> is_new f = true -> user_of f = None -> core f = PFNoop.
+  Proof.
+    induction f as [| |c' b' slots sup _|old IH]; intros Hw Hn H; simpl in *; try discriminate.
+    destruct old as [| |c b s sp|o2]; simpl in *; try discriminate; try reflexivity.
+    apply IH; [assumption|reflexivity|assumption].
   Qed.
 
   (* ---- every construction path is: compute keyword arguments, build the candidate, run __post_init__ *)
@@ -182,7 +408,7 @@ Section C10.
     match nearest_deco C with
     | Some D =>
       if init_calls_pi P D
-      then bindM (run_pi P (resolve_pi P C) v 0 (fun vis => validate_types P check vis C r)) (fun _ => ret r)
+      then bindM (run_pi P (resolve_pi P C) v 0 (fun vis => validate_types P check vis C r) (obj_setattr P C r)) (fun _ => ret r)
       else ret r
     | None => ret r
     end.
@@ -209,57 +435,61 @@ Section C10.
     unfold chain_ok in Hok. rewrite forallb_forall in Hok. now apply Hok.
   Qed.
 
-  Lemma validate_appender : forall vis C D r, nearest_deco C = Some D ->
-    forall st, validate_types P check vis C r st =
-      (st_app st (fst (checks_prefix vis (s_heap st) r (dc_fields C))), snd (checks_prefix vis (s_heap st) r (dc_fields C))).
+  (* the whole of __post_init__ on the candidate r of a path, as a pure function of the heap the candidate lives in *)
+  Definition post_init_run (C : chain) (p : path) (r : nat) (h1 : heap) : pres :=
+    pi_spec C r (resolve_pi P C) (path_via p) 0 h1.
+  (* ... and the part of it below the stacked new_post_init wrappers (user-written code; for a hierarchy with several
+     type-safe layers separated by user hooks that call super() it contains the inner validations) *)
+  Definition hooks_run (C : chain) (p : path) (r : nat) (h1 : heap) : pres :=
+    pi_spec C r (core (resolve_pi P C)) (path_via p) (wraps (resolve_pi P C) + 0) h1.
+
+  (* the main statement about construction: whenever the generated __init__ calls __post_init__ *)
+  Lemma path_outcome : forall C D p st st1 r,
+    nearest_deco C = Some D -> init_calls_pi P D = true ->
+    path_candidate P C p st = (st1, Ok r) ->
+    run_path P check C p st =
+      match post_init_run C p r (s_heap st1) with
+      | (ev, h2, o) => (mkSt h2 (s_journal st1 ++ ev), match o with Ok _ => Ok r | Raise e => Raise e end)
+      end.
   Proof.
-    intros vis C D r HD st. unfold P. rewrite ref_validate, HD, (nearest_deco_fields _ _ HD). apply check_loop_eq.
+    intros C D p st st1 r HD Hinit Hc.
+    rewrite run_path_eq by congruence. unfold bindM at 1. rewrite Hc. unfold post. rewrite HD, Hinit.
+    unfold bindM at 1. rewrite (run_pi_eq C r D HD). unfold post_init_run.
+    destruct (pi_spec C r (resolve_pi P C) (path_via p) 0 (s_heap st1)) as [[ev h2] [[]|e]]; reflexivity.
   Qed.
 
-  (* outcome of the validations a path performs on the candidate r in heap h *)
+  (* ... and when it does not (no type-safe layer, no user hook): the candidate is the result *)
+  Lemma path_outcome_quiet : forall C D p st st1 r,
+    nearest_deco C = Some D -> init_calls_pi P D = false ->
+    path_candidate P C p st = (st1, Ok r) -> run_path P check C p st = (st1, Ok r).
+  Proof.
+    intros C D p st st1 r HD Hinit Hc.
+    rewrite run_path_eq by congruence. unfold bindM at 1. rewrite Hc. unfold post. rewrite HD, Hinit. reflexivity.
+  Qed.
+
+  (* outcome of the validations the stacked wrappers perform on the candidate r in heap h *)
   Definition validations (C : chain) (v : via) (h : heap) (r : nat) : outcome unit :=
     first_raise (map (fun b => of_reject (first_reject (check b) h (dc_fields C) r)) (vis_list (resolve_pi P C) v 0)).
 
-  (* the main statement about construction *)
-  Lemma path_outcome : forall C p st st1 r,
-    validating P C = true ->
-    path_candidate P C p st = (st1, Ok r) ->
-    let h1 := s_heap st1 in
-    let J := fst (pi_spec (resolve_pi P C) (path_via p) 0
-                          (fun b => fst (checks_prefix b h1 r (dc_fields C)))
-                          (fun b => snd (checks_prefix b h1 r (dc_fields C)))) in
-    run_path P check C p st =
-      (st_app st1 J,
-       match user_raises (resolve_pi P C) with
-       | Some e => Raise e
-       | None => match validations C (path_via p) h1 r with Ok _ => Ok r | Raise e => Raise e end
-       end).
+  Lemma post_init_wrapped : forall C p r h1,
+    post_init_run C p r h1 =
+    match hooks_run C p r h1 with
+    | (e0, h2, Ok _) =>
+      (e0 ++ fst (val_seq C r (vis_list (resolve_pi P C) (path_via p) 0) h2), h2, validations C (path_via p) h2 r)
+    | (e0, h2, Raise e) => (e0, h2, Raise e)
+    end.
   Proof.
-    intros C p st st1 r Hval Hc h1 J.
-    unfold validating in Hval. destruct (nearest_deco C) as [D|] eqn:HD; [|discriminate].
-    apply andb_true_iff in Hval as [Hinit Hnew].
-    rewrite run_path_eq by congruence. unfold bindM at 1. rewrite Hc. unfold post. rewrite HD, Hinit.
-    unfold bindM at 1.
-    rewrite (run_pi_eq (fun vis => validate_types P check vis C r)
-                       (fun b h => fst (checks_prefix b h r (dc_fields C)))
-                       (fun b h => snd (checks_prefix b h r (dc_fields C)))
-                       (fun b => validate_appender b C D r HD)).
-    fold h1. fold J.
-    assert (Hne : resolve_pi P C <> PFNone) by (destruct (resolve_pi P C); [discriminate Hnew|discriminate..]).
-    rewrite (pi_spec_outcome _ _ _ _ _ (resolve_pi_wf C) Hne).
-    destruct (user_raises (resolve_pi P C)) as [e|]; [reflexivity|].
-    unfold validations.
-    rewrite (map_ext (fun b => snd (checks_prefix b h1 r (dc_fields C)))
-                     (fun b => of_reject (first_reject (check b) h1 (dc_fields C) r)))
-      by (intro; apply checks_prefix_outcome).
-    destruct (first_raise _) as [[]|e]; reflexivity.
+    intros. unfold post_init_run, hooks_run. rewrite pi_spec_wrapped.
+    destruct (pi_spec C r (core (resolve_pi P C)) (path_via p) (wraps (resolve_pi P C) + 0) h1) as [[e0 h2] [[]|e]];
+      [|reflexivity].
+    unfold validations. now rewrite val_seq_outcome.
   Qed.
 
   Lemma path_raises_early : forall C p st st1 e, nearest_deco C <> None ->
     path_candidate P C p st = (st1, Raise e) -> run_path P check C p st = (st1, Raise e).
   Proof. intros C p st st1 e HD H. rewrite run_path_eq by assumption. unfold bindM. now rewrite H. Qed.
 
-  (* validations succeed iff every field conforms under every context the path uses *)
+  (* validations succeed iff every field conforms under every context the wrappers use *)
   Lemma validations_ok : forall C v h r,
     validations C v h r = Ok tt <->
     forall b, In b (vis_list (resolve_pi P C) v 0) -> all_conform (check b) h (dc_fields C) r = true.
@@ -268,6 +498,12 @@ Section C10.
     split; intros H b Hb; specialize (H b Hb).
     - apply first_reject_none. destruct (first_reject _ _ _ _); [discriminate|reflexivity].
     - apply first_reject_none in H. now rewrite H.
+  Qed.
+  Lemma validations_raise : forall C v h r e, validations C v h r = Raise e ->
+    exists b, In b (vis_list (resolve_pi P C) v 0) /\ first_reject (check b) h (dc_fields C) r = Some e.
+  Proof.
+    intros C v h r e H. unfold validations in H. apply first_raise_in in H. apply in_map_iff in H as [b [Hb Hin]].
+    exists b. split; [assumption|]. destruct (first_reject (check b) h (dc_fields C) r); inversion Hb. reflexivity.
   Qed.
 
   (* a checker whose verdict does not depend on the caller's locals: one validation decides *)
@@ -278,14 +514,6 @@ Section C10.
   Proof.
     intros c1 c2 h fs r H. induction fs as [|f fs IH]; simpl; [reflexivity|].
     destruct (getattr h r (f_name f)); [|reflexivity]. rewrite H. now rewrite IH.
-  Qed.
-
-  Lemma validations_indep : forall C v h r, vis_indep -> is_new (resolve_pi P C) = true ->
-    validations C v h r = of_reject (first_reject (check true) h (dc_fields C) r).
-  Proof.
-    intros C v h r Hi Hn. unfold validations. apply first_raise_const.
-    - intro E. apply map_eq_nil in E. now apply vis_list_nonempty in E.
-    - apply Forall_map, Forall_forall. intros b _. f_equal. apply first_reject_ext. intros. apply Hi.
   Qed.
 
   (* the exact guard under which one validation decides: the path validates in the caller's context only, or
@@ -355,5 +583,22 @@ Section C10.
     assert (Hp : has_pi P rest = true) by (unfold has_pi; destruct (resolve_pi P rest); [discriminate|reflexivity..]).
     rewrite Hp. simpl.
     destruct (ts_installed P L); [reflexivity|]. exact Hn.
+  Qed.
+
+  (* a subclass - decorated or not, without slots - whose __post_init__ ends with super().__post_init__() and cannot raise
+     afterwards still ends with the validation of the class below *)
+  Lemma super_last_checked : forall L rest b,
+    l_pi L = Some b -> (decorated L && eff_slots P L) = false -> pb_raise b = None -> last_is_super (pb_body b) = true ->
+    checked_last P rest = true -> nearest_deco (L :: rest) <> None /\ checked_last P (L :: rest) = true.
+  Proof.
+    intros L rest b Hpi Hs Hr Hl Hc. unfold checked_last in *.
+    destruct (nearest_deco rest) as [D|] eqn:HD; [|discriminate]. apply andb_true_iff in Hc as [Hi Hc].
+    simpl nearest_deco. destruct (decorated L) eqn:HL.
+    - split; [discriminate|]. simpl init_calls_pi. rewrite Hpi. simpl.
+      simpl resolve_pi. rewrite Hpi. destruct (ts_installed P L); [reflexivity|].
+      cbn [ends_checked]. simpl in Hs. rewrite HL, Hs, Hr, Hl, Hc. reflexivity.
+    - rewrite HD. split; [discriminate|]. simpl resolve_pi. rewrite Hpi.
+      unfold ts_installed. rewrite HL. simpl.
+      cbn [ends_checked]. rewrite Hr, Hl, Hc, Hi. reflexivity.
   Qed.
 End C10.
